@@ -413,6 +413,8 @@ func c08(c *Ctx) (*report.Result, error) {
 	checkShardIDRoles(c, res, "O8.17", func(kind, callee string) bool {
 		return kind == "call" && callee != "DeliverAckToShardOwner" && callee != "GetRemoteSendChan"
 	})
+	res.RuleDoc["O8.20"] = "a re-established stream survives its predecessor's cleanup in the tracker too: in stream_tracker.go every field access through a *StreamInfo taken from the `streams` table (directly or through a helper of the file) follows the lookup's comma-ok flag or a nil test of that pointer - incarnations share a tracker id and UnregisterStream is unconditional, so an update of the live incarnation can find no entry, and a nil dereference on a worker goroutine ends the process"
+	checkTrackerEntriesTested(c, res, "O8.20", 5)
 	res.RuleDoc["O8.19"] = "nothing is sent through a receiver whose stream is not open: intraProxyManager.sendAck reaches the looked-up receiver's sendAck only on the side of `r.streamClient != nil` (or that method tests the field itself) - a receiver is registered before its stream is open, and a Send on the nil interface panics in the sender's ack goroutine, which nothing recovers"
 	checkStreamClientNilGuard(c, res, "O8.19")
 	res.RuleDoc["O8.18"] = "nothing is sent to a dead incarnation: the channel operand of every send that can hold a result of GetRemoteSendChan / GetLocalAckChan is the result of the lookup made for this very hand-over (no loop-carried variable, no variable assigned more than once, no lookup hoisted out of the loop) - the registry entry is replaced when a newer incarnation registers while the older channel stays open and buffered until its owner has wound down"
